@@ -276,6 +276,23 @@ CLAIMED = {
         "_has_array as 'no context' (pkt_header's except clause).",
         "6 (C06)",
     ),
+    "C05": (
+        "Coq proof (array = list of its elements for ANY element decoder and any number of elements, by induction; the index a packet is filed under is carried in its frame, by case analysis of the header model; value ranges of the wire decoders by exhaustive PrimFloat sweeps lifted by lemma) + translator shape check of every array-capable parser + decoder oracle over regex-generated payloads of every code",
+        "6 theorems in coq/props/C05.v about coq/model/M_Payload.v (+ M_Codecs, M_Header): decode_array f n (concat es) = map f es for "
+        "every element decoder f, element length n > 0 and list es of elements; the k-th element reports the first byte of the k-th "
+        "element; every regenerated element length is positive; pkt_idx returns payload[:2], payload[4:6] or one of the fixed ids a "
+        "000C role / the DHW schedule stands for; every temperature a 16-bit word decodes to is within -273.15..327.67 and every ratio a "
+        "byte decodes to within 0..1 (2^16 / 2^8 sweeps). The tie of the array theorem to the code is the translator: on every run it "
+        "checks that each of the 8 array-capable parsers is a comprehension `for i in range(0, len(payload), N)` over slices within the "
+        "element, N = 2 x CODES_WITH_ARRAYS, with the element index at [i:i+2], and that a helper which decodes the whole single-element "
+        "payload gets the whole element in the array path (this is what failed for 2249 before fix 072cff6). PARTIAL: 'JSON-serialisable', "
+        "'the same whatever was decoded before' and per-field decoding of the ~109 parsers are not theorems -- decided by the oracle on "
+        "payloads generated from every (verb, code) regex in lowest/highest/random modes: json.dumps, decode again / after others / in "
+        "reverse order, arrays of 1..8 elements vs their elements, reported indexes vs the frame, ranges by key name.",
+        "Trusted: Coq kernel (PrimFloat primitives in the two range sweeps), translator (element lengths + AST shape), harness. "
+        "Modelled not verified: element decoders other than the 30C9/2309 temperature arrays (which are compared bit for bit).",
+        "6 (C05)",
+    ),
 }
 
 NOT_YET = "not claimed yet: the Coq model and correspondence harness for this property are not built in this revision (planned in DESIGN.md section 6)"
